@@ -70,10 +70,42 @@ def build_asm(ad):
     return PanelAssembly(panels, conn), panels
 
 
+PRE_CALLS = {"k0": ["kT", "fint", "kM", "kG0"], "fint": ["kT", "kT+k0", "kM"], "kT": ["fint", "kM", "kT"],
+             "kM": ["kT", "kG0"], "kG0": ["kT", "kM"], "fext": ["kT", "fint"]}
+
+
+def warm_up(a, panels, ad, pre):
+    """other public queries made on the same assembly BEFORE the observed one (they must not change its answer);
+    a query that is refused on a fresh assembly is skipped - refusals are C20's subject"""
+    for m in pre.split("+"):
+        try:
+            n = a.get_size()
+            if m == "kT":
+                for p, pd in zip(panels, ad["pds"]):
+                    p.nx, p.ny = panelmat.gauss_orders(pd, {})
+                a.calc_kT(c=np.zeros(n), silent=True)
+            elif m == "fint":
+                for p, pd in zip(panels, ad["pds"]):
+                    p.nx, p.ny = panelmat.gauss_orders(pd, {})
+                a.calc_fint(np.zeros(n), silent=True)
+            elif m == "kM":
+                a.calc_kM(silent=True)
+            elif m == "kG0":
+                a.calc_kG0(silent=True)
+            elif m == "conn":
+                a.get_k0_conn()
+            elif m == "k0":
+                a.calc_k0(silent=True)
+        except Exception:
+            pass
+
+
 def observe_asm(ad, r):
     """one request on a freshly built PanelAssembly -> list of trace-event bodies (req, obs | raised)"""
     a, panels = build_asm(ad)
     q = r["q"]
+    if r.get("pre"):
+        warm_up(a, panels, ad, r["pre"])
     if q == "size":
         return [dict(req=r, obs=int(a.get_size()))]
     if q == "k0":
@@ -150,6 +182,9 @@ def random_asm_req(rng, ad, q):
     r = dict(q=q)
     if q == "kG0":
         r["N"] = [[rat(Fraction(rng.randint(-12, 12), 4)) for _ in range(3)] for _ in ad["pds"]]
+    if q in ("fint", "kT"):
+        n = sum(3 * pd["m"] * pd["n"] for pd in ad["pds"])
+        r["c"] = [rat(Fraction(rng.randint(-8, 8), 16)) for _ in range(n)]
     if q == "fext":
         def forces(pd, n):
             a, b = fr(pd["a"]), fr(pd["b"])
@@ -527,6 +562,18 @@ def phase(rep, tier, seed, only=None, tag="c13"):
             if only and q not in only:
                 continue
             pairs.append((bd, dict(q=q, N=[rat(Fraction(rng.randint(-12, 12), 4)) for _ in range(3)]) if q == "kG0" else dict(q=q)))
+    # small random assemblies at random states for the non-linear quantities (fint, kT)
+    for _ in range(6 if tier == "quick" else 80):
+        ad = random_asm(rng)
+        ad["pds"] = ad["pds"][:2]
+        for pd in ad["pds"]:
+            pd["m"], pd["n"] = rng.choice([(1, 2), (2, 2), (2, 1), (1, 1)])
+        ad["conns"] = [c for c in ad["conns"] if max(c["p1"], c["p2"]) <= 2] or \
+                      [dict(kind="SSycte", p1=2, p2=1, pos1=rat(0), pos2=ad["pds"][0]["b"])]
+        for q in ("fint", "kT"):
+            if only and q not in only:
+                continue
+            pairs.append((ad, random_asm_req(rng, ad, q)))
     for _ in range(nrand // 3):
         bd = random_stiff_bay(rng)
         if not only:
@@ -534,7 +581,12 @@ def phase(rep, tier, seed, only=None, tag="c13"):
     events, meta = [], {}
     gc.collect()
     gc.freeze()          # the package calls gc.collect() in every method: keep the parsed lattice out of its way
-    for d, r in pairs:
+    turn = {}
+    for k, (d, r) in enumerate(pairs):
+        if d["kind"] == "asm" and r["q"] in PRE_CALLS:
+            t = turn[r["q"]] = turn.get(r["q"], 0) + 1
+            if t % 2 == 0:          # every second request of a kind is made after another query on the same object
+                r = dict(r, pre=PRE_CALLS[r["q"]][(t // 2) % len(PRE_CALLS[r["q"]])])
         try:
             record(events, meta, d, r)
         except Exception as ex:
@@ -569,4 +621,6 @@ def phase(rep, tier, seed, only=None, tag="c13"):
         "findings owned by other properties (%s) are accepted here only while known_findings.json lists them as open"
         % ", ".join(sorted(INHERITED)),
         "assemblies use the 3-dof CLT models",
-        "documented call order: calc_k0 before calc_kM / calc_kT / calc_fint (history dependence is C20's subject)"]
+        "documented call order: calc_k0 before calc_kM / calc_kT / calc_fint; every second assembly request is made after another "
+        "public query (calc_kT, calc_fint, calc_kM, calc_kG0, get_k0_conn) on the same object, which must not change its answer "
+        "(refusals of such queries on fresh objects are C20's subject)"]
